@@ -103,10 +103,17 @@ impl Zone {
                 if dis == Disamb::Reject {
                     return Err(());
                 }
-                let (ob, oa) = self.gap_offsets(wall_ns).ok_or(())?;
+                // DisambiguatePossibleEpochNanoseconds, literally: the offsets one day before and after the wall
+                // reading taken as UTC give the length of the skipped stretch; the reading moved back (earlier) or
+                // forward (compatible, later) by that length is looked up again and its first resp. last candidate
+                // is the answer. For an isolated transition this is `wall - offset after` resp. `wall - offset
+                // before`; it differs when the moved reading falls into a repeated stretch of a nearby transition.
+                let ob = self.offset_at(wall_ns - NS_PER_DAY);
+                let oa = self.offset_at(wall_ns + NS_PER_DAY);
+                let n = (oa - ob) as i128 * S;
                 match dis {
-                    Disamb::Earlier => Ok(wall_ns - oa as i128 * S),
-                    _ => Ok(wall_ns - ob as i128 * S),
+                    Disamb::Earlier => self.instants(wall_ns - n).first().copied().ok_or(()),
+                    _ => self.instants(wall_ns + n).last().copied().ok_or(()),
                 }
             }
             _ => match dis {
